@@ -781,7 +781,10 @@ func builtinGreaterThan(_ *lisp.LEnv, args *lisp.LVal) *lisp.LVal {
 		if !ok {
 			return lisp.ErrorConditionf(FailedConstraint, "Value cannot be compared")
 		}
-		if comparison >= compareTo {
+		// Written as "fail unless the relation holds", here and in the five
+		// constraints below: every comparison with NaN is false, so "fail if
+		// the opposite relation holds" let NaN through every bound at once.
+		if !(compareTo > comparison) {
 			return lisp.ErrorConditionf(FailedConstraint, "Supplied value was less than the allowed value")
 		}
 		return lisp.Nil()
@@ -800,7 +803,7 @@ func builtinGreaterThanOrEqual(_ *lisp.LEnv, args *lisp.LVal) *lisp.LVal {
 		if !ok {
 			return lisp.ErrorConditionf(FailedConstraint, "Value cannot be compared")
 		}
-		if comparison > compareTo {
+		if !(compareTo >= comparison) {
 			return lisp.ErrorConditionf(FailedConstraint, "Supplied value %v was less than the allowed value %v", compareTo, comparison)
 		}
 		return lisp.Nil()
@@ -819,7 +822,7 @@ func builtinLessThan(_ *lisp.LEnv, args *lisp.LVal) *lisp.LVal {
 		if !ok {
 			return lisp.ErrorConditionf(FailedConstraint, "Value cannot be compared")
 		}
-		if comparison <= compareTo {
+		if !(compareTo < comparison) {
 			return lisp.ErrorConditionf(FailedConstraint, "Supplied value was greater than the allowed value")
 		}
 		return lisp.Nil()
@@ -838,7 +841,7 @@ func builtinLessThanOrEqual(_ *lisp.LEnv, args *lisp.LVal) *lisp.LVal {
 		if !ok {
 			return lisp.ErrorConditionf(FailedConstraint, "Value cannot be compared")
 		}
-		if comparison < compareTo {
+		if !(compareTo <= comparison) {
 			return lisp.ErrorConditionf(FailedConstraint, "Supplied value was greater than the allowed value")
 		}
 		return lisp.Nil()
@@ -888,7 +891,7 @@ func builtinPositive(_ *lisp.LEnv, _ *lisp.LVal) *lisp.LVal {
 		if !ok {
 			return lisp.ErrorConditionf(FailedConstraint, "Value cannot be compared")
 		}
-		if compareTo <= 0 {
+		if !(compareTo > 0) {
 			return lisp.ErrorConditionf(FailedConstraint, "Supplied value was not positive")
 		}
 		return lisp.Nil()
@@ -903,7 +906,7 @@ func builtinNegative(_ *lisp.LEnv, _ *lisp.LVal) *lisp.LVal {
 		if !ok {
 			return lisp.ErrorConditionf(FailedConstraint, "Value cannot be compared")
 		}
-		if compareTo >= 0 {
+		if !(compareTo < 0) {
 			return lisp.ErrorConditionf(FailedConstraint, "Supplied value was not negative")
 		}
 		return lisp.Nil()
